@@ -94,6 +94,8 @@ var crsForms = []string{
 	`"not a uri"`,
 }
 
+var extremeIDs = []string{`"9223372036854775807"`, `"-9223372036854775808"`, `"-9223372036854775807"`, `"9223372036854775806"`, `"-1"`, `"4611686018427387904"`}
+
 var replacementValues = []string{`null`, `true`, `0`, `-1`, `0.5`, `1.5`, `9007199254740992`, `-9007199254740992`, `2`, `256`, `"x"`, `""`, `"12"`, `"1.5"`, `"-3"`, `[]`, `{}`, `[1,"a"]`, `[1,2,3]`, `[1]`, `{"a":1}`}
 
 func sortedKeys(m map[string]any) []string {
@@ -329,6 +331,9 @@ func genC16(t *rapid.T) DocCase {
 				}
 			default:
 				m.Op, m.Val = "set", json.RawMessage(rapid.SampledFrom(replacementValues).Draw(t, "val"))
+				if len(m.Path) > 0 && m.Path[len(m.Path)-1] == "id" && rapid.Bool().Draw(t, "extremeID") {
+					m.Val = json.RawMessage(rapid.SampledFrom(extremeIDs).Draw(t, "idVal")) // ids at the ends of the int64 range
+				}
 			}
 		}
 		c.Muts = append(c.Muts, m)
